@@ -171,6 +171,10 @@ def parse_vspec(path):
             cur_fn["r18"] = True
         elif head == "r19":
             cur_fn["r19"] = True
+        elif head == "r22":
+            cur_fn.setdefault("r22", []).extend(rest.split())
+        elif head == "r23":
+            cur_fn.setdefault("r23", []).extend(rest.split())
         elif head == "fnattr":
             cur_fn.setdefault("fnattrs", []).append(rest)
         elif head == "r9":
@@ -402,6 +406,21 @@ class UnitGen:
                     hit = True
             if not hit:
                 raise Undecided(f"fn {qual}: R15 parameter {pname} not found (lost anchor)")
+        # R23: by-value parameter `mut x: T` of an async fn -> `x: T` with `let mut x = x;` as first statement (what a `mut`
+        # parameter binding means; the installed Verus loses the `mut` of parameters when it lowers an async fn)
+        for pname in fs.get("r23", []):
+            hit = False
+            for inp in sig["inputs"]:
+                if inp["receiver"]:
+                    continue
+                if src.text(*inp["pat"]).strip() == "mut " + pname:
+                    edits.append((inp["pat"][0], inp["pat"][1], pname, "R23"))
+                    edits.append((blk[0] + 1, blk[0] + 1, f" let mut {pname} = {pname};", "R23"))
+                    self.rewrites.append({"rule": "R23", "what": f"parameter `mut {pname}` -> `{pname}` + `let mut {pname} = {pname};` in {qual}",
+                                          "file": src.rel, "line": src.line_of(inp["pat"][0])})
+                    hit = True
+            if not hit:
+                raise Undecided(f"fn {qual}: R23 parameter `mut {pname}` not found (lost anchor)")
         # R4: Pin<&mut Self> receiver of an Unpin type -> &mut self
         if fs.get("r4"):
             recv = [i for i in sig["inputs"] if i["receiver"]]
@@ -549,6 +568,24 @@ class UnitGen:
                                           "file": src.rel, "line": src.line_of(s0)})
             if k19 == 0:
                 raise Undecided(f"fn {qual}: R19 requested but no `.map(Constructor)` found (lost anchor)")
+        # R22: `RECV.callback(args).await` where RECV is a lifecycle object whose trait appears as a stand-in with PLAIN `fn`
+        # callbacks (the installed Verus refuses `async fn` / `-> impl Future` in trait definitions): the `.await` is dropped.
+        # Sound for the contracts stated here because the callback future is awaited to completion right where it is created,
+        # on an exclusively borrowed receiver: from the point of view of this function's own state it is a sequential call
+        # (cancellation of the enclosing future mid-await is outside every contract: partial correctness).
+        if fs.get("r22"):
+            k22 = 0
+            for n in nodes:
+                if (n["kind"] == "await_call" and src.text(*n["receiver"]).strip() in fs["r22"]) or \
+                        (n["kind"] == "await_fn" and ("fn:" + n["func"]) in fs["r22"]):
+                    bs, be = n["base"]
+                    s0, e0 = n["range"]
+                    edits.append((be, e0, "", "R22"))
+                    k22 += 1
+                    self.rewrites.append({"rule": "R22", "what": f"`{src.text(bs, be)}.await` -> `{src.text(bs, be)}` (stand-in trait with plain fn callbacks) in {qual}",
+                                          "file": src.rel, "line": src.line_of(s0)})
+            if k22 == 0:
+                raise Undecided(f"fn {qual}: R22 requested but no `<receiver>.<callback>(..).await` found (lost anchor)")
         # R2: break V -> return V for tail loops
         loops = {n["ord"]: n for n in nodes if n["kind"] in ("loop", "while", "for")}
         for lo in fs["r2"]:
